@@ -3,17 +3,23 @@
 // Contracts for package enc, checked by /verif (govc). Comment-only.
 package enc
 
+// The functional clauses of the three wrappers are assumed (NaCl secretbox and sha3 are outside the contracts);
+// their memory-safety obligations are proved.
 //@ func (*boxed).OpenWithNonce
 //@   requires s != nil
 //@   ensures err == nil ==> result0 != nil
+//@   assumes [open-is-secretbox-open] err == nil ==> openOK(s, bytes(payload), bytes(nonce)) && bytes(result0) == openOf(s, bytes(payload), bytes(nonce))
+//@   assumes [open-accepts-what-seal-produced] len(nonce) == 24 && openOK(s, bytes(payload), bytes(nonce)) ==> err == nil
 
 //@ func (*boxed).SealWithNonce
 //@   requires s != nil
 //@   ensures err == nil ==> result0 != nil
+//@   assumes [seal-is-secretbox-seal] err == nil ==> bytes(result0) == sealOf(s, bytes(encrypted), bytes(nonce))
 
 //@ func (*boxed).DeriveNonce
 //@   requires s != nil
 //@   ensures err == nil ==> len(result0) == 24
+//@   assumes [nonce-is-a-function-of-the-input] err == nil ==> bytes(result0) == nonceOf(bytes(input))
 //@   loop 0
 //@     invariant 0 <= i && i <= 24 && len(nonce) == 24 && len(sum) >= 32
 
